@@ -53,7 +53,27 @@ def typed(prog):
             walk(d["x"])
     p["recs"] = [[nt(t) for t in r] for r in p.get("recs", [])]
     p["uns"] = [[nt(t) for t in r] for r in p.get("uns", [])]
+    p.setdefault("cats", [])
+    p.setdefault("doms", [])
+    for c in p["cats"]:
+        for o in c["ops"]:
+            o["pts"] = [nt(a) for a in o["pts"]]
+            o["rt"] = nt(o["rt"])
+        for o in c["defaults"]:
+            o["pts"] = [nt(a) for a in o["pts"]]
+            o["rt"] = nt(o["rt"])
+            walk(o["body"])
+    for dm in p["doms"]:
+        for o in dm["ops"]:
+            o["pts"] = [nt(a) for a in o["pts"]]
+            o["rt"] = nt(o["rt"])
+            walk(o["body"])
     p.setdefault("exns", [])
+    p.setdefault("macs", [])
+    for m in p["macs"]:
+        walk(m["body"])
+        m.pop("pts", None)
+        m.pop("rt", None)
     if "order" not in p:
         p["order"] = [["f", i] for i in range(len(p["funs"]))] + [["t", i] for i in range(len(p["top"]))]
     for k in ("feat", "seed", "render_opts"):
